@@ -45,7 +45,19 @@ def verif_probe_test(inp, tinp=None, zinp=None, lat=None, lon=None, tag=0):
     return np.ma.ones(len(inp), dtype="uint8")
 
 
-def verif_boom_test(inp, tag=0):
+def verif_boom_test(inp, tinp=None, zinp=None, lat=None, lon=None, tag=0):
+    """a test that cannot run -- and that scribbles over whatever it was handed before it dies (a test owns its inputs:
+    nothing it does to them may reach the other tests of the run)"""
+    for a in (tinp, zinp, lat, lon):
+        try:
+            if a is not None and len(a):
+                a[...] = a[0]
+        except Exception:  # noqa: BLE001  read-only or not an array: nothing to scribble on
+            pass
+    try:
+        inp[...] = -12345.0
+    except Exception:  # noqa: BLE001
+        pass
     raise RuntimeError("boom")
 
 
